@@ -20,7 +20,9 @@ package agent
 // and the registration present immediately before are all still present after it returned.
 
 import (
+	"bytes"
 	"context"
+	"runtime"
 	"errors"
 	"fmt"
 	"os"
@@ -89,7 +91,21 @@ func c32aInstallHooks() {
 	})
 }
 
+// c32aGoid: id of the calling goroutine; the enter and exit hook points of one
+// handleDisconnect call run on the same goroutine and are paired by it.
+func c32aGoid() uint64 {
+	var buf [64]byte
+	b := buf[:runtime.Stack(buf[:], false)]
+	b = bytes.TrimPrefix(b, []byte("goroutine "))
+	if i := bytes.IndexByte(b, ' '); i > 0 {
+		b = b[:i]
+	}
+	v, _ := strconv.ParseUint(string(b), 10, 64)
+	return v
+}
+
 type c32aTeardown struct {
+	goid    uint64
 	conn    *peer.Connection
 	nth     int
 	release chan struct{}
@@ -195,7 +211,7 @@ func (w *c32aWorld) enter(conn *peer.Connection) {
 			n++
 		}
 	}
-	td := &c32aTeardown{conn: conn, nth: n, exited: make(chan struct{})}
+	td := &c32aTeardown{goid: c32aGoid(), conn: conn, nth: n, exited: make(chan struct{})}
 	if w.holdNext[conn] == n {
 		td.release = make(chan struct{})
 	}
@@ -216,11 +232,12 @@ func (w *c32aWorld) enter(conn *peer.Connection) {
 }
 
 func (w *c32aWorld) exit(conn *peer.Connection) {
+	gid := c32aGoid()
 	w.mu.Lock()
 	defer w.mu.Unlock()
 	for i := len(w.teardowns) - 1; i >= 0; i-- {
 		t := w.teardowns[i]
-		if t.conn != conn {
+		if t.conn != conn || t.goid != gid {
 			continue
 		}
 		select {
@@ -310,6 +327,9 @@ func TestVerif_C32Agent(t *testing.T) {
 		r.Inconclusive("hook not reached: peer.disconnect.enter/exit are not in this tree (apply proposed/C32/hook.diff)")
 		return
 	}
+	if bad := r.Counter("cases_setup_not_converged"); bad*100 > int64(n) {
+		r.Inconclusive(fmt.Sprintf("%d of %d meshes did not converge during setup", bad, n))
+	}
 	r.Require("stale_teardowns_judged", 25)
 	r.Require("routes_at_stake", 50)
 	r.Require("relay_entries_at_stake", 25)
@@ -317,10 +337,13 @@ func TestVerif_C32Agent(t *testing.T) {
 
 func c32aCase(r *verifkit.R, phase string, ci int, rng *verifkit.Rand, dir string) {
 	w := &c32aWorld{r: r, phase: phase, ci: ci, net: c32memnet.New(), memA: map[uint64]*c32memnet.Conn{}, holdNext: map[*peer.Connection]int{}}
+	nextNet := 0
 	mkRoutes := func(n int) []string {
 		var out []string
 		for i := 0; i < n; i++ {
-			out = append(out, fmt.Sprintf("10.%d.%d.0/24", rng.Range(1, 250), rng.Range(0, 250)))
+			// distinct by construction (second octet is a running index)
+			nextNet++
+			out = append(out, fmt.Sprintf("10.%d.%d.0/24", 10*nextNet+rng.Range(0, 9), rng.Range(0, 250)))
 		}
 		return out
 	}
@@ -429,7 +452,27 @@ func c32aCase(r *verifkit.R, phase string, ci int, rng *verifkit.Rand, dir strin
 		}
 		return n >= want
 	}
-	if !w.waitFor("A to learn the exit routes via B", learned) {
+	// setup convergence is not what this check judges: a case whose mesh does not converge is
+	// skipped and counted (the run is inconclusive only if that happens in more than 1% of cases)
+	converged := func() bool {
+		deadline := time.Now().Add(c32aWatchdog)
+		for !learned() {
+			if time.Now().After(deadline) {
+				return false
+			}
+			time.Sleep(200 * time.Microsecond)
+		}
+		return true
+	}
+	if !converged() {
+		r.Add("cases_setup_not_converged", 1)
+		var have []string
+		for _, rt := range w.a.routeMgr.Table().GetAllRoutes() {
+			have = append(have, rt.Network.String()+" via "+rt.NextHop.ShortString())
+		}
+		r.Set("diagnostic_routes_never_learned", map[string]any{"case": ci, "steps": w.steps, "want": want, "A_routes": have,
+			"A_peers": len(w.a.peerMgr.GetAllPeers()), "B_peers": len(w.b.peerMgr.GetAllPeers()), "B_id": idB.ShortString(),
+			"B_local_routes": len(w.b.routeMgr.GetLocalRoutes())})
 		return
 	}
 	rounds := rng.Range(1, 3)
@@ -458,6 +501,11 @@ func c32aCase(r *verifkit.R, phase string, ci int, rng *verifkit.Rand, dir strin
 		mem.FailWrites(errC32aWrite)
 		w.logf("round %d: writes of A on conn#%d fail", round, xs)
 		var held *c32aTeardown
+		// give-up timer: x may die of another cause first (e.g. B rejected it as a duplicate of a
+		// connection it had not torn down yet), then only one notification comes; that is a
+		// scenario that did not materialise, not a verdict
+		giveUp := time.Now().Add(3 * time.Second)
+		gaveUp := false
 		if !w.waitFor("the second teardown notification of the dead connection to reach the hook", func() bool {
 			w.mu.Lock()
 			defer w.mu.Unlock()
@@ -467,16 +515,41 @@ func c32aCase(r *verifkit.R, phase string, ci int, rng *verifkit.Rand, dir strin
 					return true
 				}
 			}
+			if time.Now().After(giveUp) {
+				gaveUp = true
+				return true
+			}
 			return false
 		}) {
 			return
 		}
+		if gaveUp {
+			w.mu.Lock()
+			delete(w.holdNext, x)
+			w.mu.Unlock()
+			r.Add("rounds_without_second_notification", 1)
+			w.logf("round %d: no second teardown notification for conn#%d", round, xs)
+			continue
+		}
 		r.Add("second_teardown_notifications_held", 1)
 		// the replacement comes from the dialing side's reconnector
-		if !w.waitFor("the replacement connection to be registered and the routes re-learned over it", func() bool {
-			y := w.a.peerMgr.GetPeer(idB)
-			return y != nil && y != x && !c32aClosed(y) && learned()
-		}) {
+		// (setup of the scenario, not a verdict: counted and skipped if it does not converge)
+		okRepl := func() bool {
+			deadline := time.Now().Add(c32aWatchdog)
+			for {
+				y := w.a.peerMgr.GetPeer(idB)
+				if y != nil && y != x && !c32aClosed(y) && learned() {
+					return true
+				}
+				if time.Now().After(deadline) {
+					return false
+				}
+				time.Sleep(200 * time.Microsecond)
+			}
+		}()
+		if !okRepl {
+			r.Add("cases_setup_not_converged", 1)
+			w.logf("round %d: replacement connection / routes did not converge", round)
 			return
 		}
 		y := w.a.peerMgr.GetPeer(idB)
